@@ -198,7 +198,7 @@ def b64_cases(ctx, n_enc, n_dec):
 
 
 def check_b64(ctx):
-    cases, specs, py = b64_cases(ctx, ctx.n(1500, 40000), ctx.n(2500, 60000))
+    cases, specs, py = b64_cases(ctx, ctx.n(3000, 100000), ctx.n(6000, 150000))
     run_all(ctx, "b64", cases, specs, py,
             "b64encode on all byte values and lengths 0..1000 (every length mod 3) against the RFC 4648 spec and "
             "Python base64; b64decode on valid encodings, non-zero trailing bits, truncated/extended strings, '=' "
@@ -207,7 +207,7 @@ def check_b64(ctx):
 
 
 def check_b64_safety(ctx):
-    cases, specs, py = b64_cases(ctx, ctx.n(300, 8000), ctx.n(3500, 80000))
+    cases, specs, py = b64_cases(ctx, ctx.n(500, 15000), ctx.n(7000, 200000))
     impl = run_all(ctx, "b64-safety", cases, specs, py,
                    "b64decode/b64encode under ASan+UBSan with input and output in exact-size allocations "
                    "(in: inlen bytes, out: (inlen/4)*3 resp. b64len+1 bytes); outlen within (inlen/4)*3")
@@ -232,7 +232,7 @@ def check_endian(ctx):
     for c in corpus({"endenc", "enddec"}):
         cases.append(c)
         py.append(None)
-    n = ctx.n(40, 1500)
+    n = ctx.n(100, 3000)
     for fn, w, fmt in FNS:
         top = (1 << (8 * w)) - 1
         vals = [0, 1, top, top - 1, 0x0102030405060708 & top, 0x8000000000000000 >> (64 - 8 * w), 0xff, 0xff00 & top,
@@ -499,7 +499,7 @@ def sock_cases(ctx, n):
 
 
 def check_sock(ctx):
-    cases, py = sock_cases(ctx, ctx.n(700, 20000))
+    cases, py = sock_cases(ctx, ctx.n(2000, 50000))
     run_all(ctx, "sock", cases, None, py,
             "sock_resolve on IPv4/IPv6 literals in all spellings (::, ::ffff:a.b.c.d, upper case, leading zeros), ports "
             "1..65535 and their accepted spellings, Unix paths up to 107 bytes, against the address they denote "
@@ -528,7 +528,7 @@ def gen_deser(ctx, n):
 
 
 def check_sock_safety(ctx):
-    n = ctx.n(500, 15000)
+    n = ctx.n(1500, 40000)
     cases, py = [], []
     for c in corpus({"resolve", "deser", "ensure"}):
         cases.append(c)
@@ -619,7 +619,7 @@ def gen_files(ctx, n, bufsize, key_lines):
 
 
 def check_linefiles_safety(ctx):
-    n = ctx.n(600, 20000)
+    n = ctx.n(1200, 30000)
     gen = ["aws " + hx(f) for f in gen_files(ctx, n, 1024, True)]
     gen += ["rp " + hx(f) for f in gen_files(ctx, n, 2048, False)]
     ctx.rng.shuffle(gen)          # spread the long-line cases (slow in the model) over the shards
